@@ -169,6 +169,24 @@ func (c03) Gen(rng *rand.Rand, tier string, emit func(string)) {
 	} {
 		emit(c)
 	}
+	// stress: thousands of one-record batches in flight between 8..16 workers (a worker that looks at a
+	// batch another worker has just taken shows up as a lost / duplicated batch)
+	{
+		var sb strings.Builder
+		for k := 0; k < 3000; k++ {
+			if k > 0 {
+				sb.WriteByte(' ')
+			}
+			fmt.Fprintf(&sb, "%d:%d", k, k+1)
+		}
+		for rep := 0; rep < 3; rep++ {
+			emit(fmt.Sprintf("worker w=%d | %s", 8+4*rep, sb.String()))
+		}
+		emit(fmt.Sprintf("filteron 7 w=16 | %s", sb.String()))
+		// the same with 60000 implicit one-record batches (batch k holds record k+1): too long for a case line
+		emit("wstress 16 60000 | ")
+		emit("wstress 8 60000 | ")
+	}
 	if tier == "thorough" {
 		// every arrival permutation of n <= 5 batches x two emptiness patterns for the sorting combinators
 		for n := 1; n <= 5; n++ {
@@ -532,6 +550,44 @@ func (c03) Exec(c string) (string, []Fail) {
 			out := c03Drain(obiiter.IBatchOver("src", data, intArg(1)))
 			checkOut(out, c03Flat(streams[0]), true)
 			return c03Show(out)
+		case op == "wstress" && intArg(1) > 0 && intArg(2) > 0:
+			n := intArg(2)
+			it := obiiter.MakeIBioSequence()
+			it.Add(1)
+			go func() {
+				for k := 0; k < n; k++ {
+					it.Push(obiiter.MakeBioSequenceBatch("src", k, obiseq.BioSequenceSlice{c03Seq(k + 1)}))
+				}
+				it.Done()
+			}()
+			go it.WaitAndClose()
+			out := it.MakeISliceWorker(func(sl obiseq.BioSequenceSlice) (obiseq.BioSequenceSlice, error) { return sl, nil }, false, intArg(1))
+			seen := make([]int, n)
+			lost, dup, foreign, total := 0, 0, 0, 0
+			for out.Next() {
+				b := out.Get()
+				total++
+				if b.Order() < 0 || b.Order() >= n {
+					foreign++
+					continue
+				}
+				seen[b.Order()]++
+				if b.Len() != 1 || c03Id(b.Slice()[0]) != b.Order()+1 {
+					foreign++
+				}
+			}
+			for _, c := range seen {
+				if c == 0 {
+					lost++
+				} else if c > 1 {
+					dup++
+				}
+			}
+			if lost+dup+foreign > 0 || total != n {
+				fail("batches", "%d batches out for %d in: %d lost, %d delivered more than once, %d not holding their own record", total, n, lost, dup, foreign)
+				return fmt.Sprintf("broken lost=%d dup=%d foreign=%d", lost, dup, foreign)
+			}
+			return "ok"
 		case op == "pool":
 			var others []obiiter.IBioSequence
 			var want []int
